@@ -1,6 +1,7 @@
 package verifsim
 
 import (
+	"runtime/debug"
 	"crypto/sha256"
 	"encoding/hex"
 	"encoding/json"
@@ -277,7 +278,7 @@ func RunWorker(o WorkerOpts) *WorkerResult {
 		defer func() {
 			if r := recover(); r != nil {
 				pj, _ := json.Marshal(p)
-				v = &Verdict{Infra: []string{fmt.Sprintf("oracle panicked: %v plan=%s", r, pj)}}
+				v = &Verdict{Infra: []string{fmt.Sprintf("oracle panicked: %v at %s plan=%s", r, oracleSite(debug.Stack()), pj)}}
 			}
 		}()
 		return ck.Oracle(p)
@@ -528,4 +529,21 @@ func DebugShrink(prop string, seed uint64, worker, idx int) string {
 	pj, _ := json.Marshal(sp)
 	fmt.Fprintf(&sb, "PLAN %s\n", pj)
 	return sb.String()
+}
+
+func oracleSite(stack []byte) string {
+	var out []string
+	for _, line := range strings.Split(string(stack), "\n") {
+		line = strings.TrimSpace(line)
+		if strings.Contains(line, "internal/verifsim/") && strings.Contains(line, ".go:") {
+			if i := strings.IndexByte(line, ' '); i > 0 {
+				line = line[:i]
+			}
+			out = append(out, line[strings.LastIndex(line, "/")+1:])
+			if len(out) >= 5 {
+				break
+			}
+		}
+	}
+	return strings.Join(out, " < ")
 }
